@@ -18,6 +18,8 @@
 //!   P<n>         (first) every reply is padded to n KiB
 //!   I<ms>        (first) ServerBuilder::enable_ws_ping with ping interval <ms> (inactivity limit 60 s): the clients' reader tasks
 //!                answer every ping with a pong, so pongs keep arriving while calls execute and while the server stops
+//!   T<ms>        (first) ServerConfigBuilder::set_keep_alive_timeout(<ms> milliseconds): hyper's keep-alive timeout; it must have no effect
+//!                on a graceful stop (a call started before the stop is completed and answered however long its handler takes)
 //!   cW           like cw, but the client socket has a 4 KiB receive buffer (with q<c> the server's writer blocks)
 //!   q<c> / g<c>  the client's reader task of connection c stops / resumes reading
 //!   A            open the gates of all calls sent so far in one step
@@ -260,9 +262,12 @@ async fn run_case(line: &str) -> String {
 	let mut cap: Option<u32> = None;
 	let mut pad = 0usize;
 	let mut ping: Option<u64> = None;
+	let mut keep_alive_timeout: Option<u64> = None;
 	for op in line.split_whitespace() {
 		if let Some(v) = op.strip_prefix('I') {
 			ping = v.parse().ok();
+		} else if let Some(v) = op.strip_prefix('T') {
+			keep_alive_timeout = v.parse().ok();
 		} else if let Some(v) = op.strip_prefix('B') {
 			cap = v.parse().ok();
 		} else if let Some(v) = op.strip_prefix('P') {
@@ -283,7 +288,14 @@ async fn run_case(line: &str) -> String {
 			jsonrpsee_server::PingConfig::new().ping_interval(Duration::from_millis(ms.max(1))).inactive_limit(Duration::from_secs(60)),
 		);
 	}
-	let builder = if cap.is_some() || ping.is_some() { jsonrpsee_server::ServerBuilder::with_config(cfg.build()) } else { Server::builder() };
+	if let Some(ms) = keep_alive_timeout {
+		cfg = cfg.set_keep_alive_timeout(Duration::from_millis(ms.max(1)));
+	}
+	let builder = if cap.is_some() || ping.is_some() || keep_alive_timeout.is_some() {
+		jsonrpsee_server::ServerBuilder::with_config(cfg.build())
+	} else {
+		Server::builder()
+	};
 	let server = match builder.build(bind.as_str()).await {
 		Ok(s) => s,
 		Err(_) => return "FATAL bind".into(),
@@ -435,7 +447,7 @@ async fn run_case(line: &str) -> String {
 				}
 			}
 			("p", _) => sleep(Duration::from_millis(25)).await,
-			("B", _) | ("P", _) | ("I", _) => {}
+			("B", _) | ("P", _) | ("I", _) | ("T", _) => {}
 			("A", _) => {
 				for k in 0..sent.len().min(MAXCALLS) {
 					case.gates[k].add_permits(1);
